@@ -61,6 +61,15 @@ def cases_for(tier):
         for b in ([1, 2, 3, 6] if tier == 'quick' else range(1, 8)):
             add('count_set_bits', {'a': ('bv', w)}, f"std.count_set_bits(self.a, batch_size={b})", ('u', 8), lambda a: popcount(a))
             add('count_clear_bits', {'a': ('bv', w)}, f"std.count_clear_bits(self.a, batch_size={b})", ('u', 8), lambda a, w=w: w - popcount(a))
+        if w in (3, 6, 7, 9, 13):
+            # both counters in one design (and therefore one process), same batch width, in either order of first use
+            b = 3 if w != 6 else 6
+            add('count_set_bits+count_clear_bits', {'a': ('bv', w)},
+                f"(std.count_set_bits(self.a, batch_size={b}) > std.count_clear_bits(self.a, batch_size={b}))", ('bit', None),
+                lambda a, w=w: int(popcount(a) > w - popcount(a)))
+            add('count_clear_bits+count_set_bits', {'a': ('bv', w)},
+                f"(std.count_clear_bits(self.a, batch_size={b}) >= std.count_set_bits(self.a, batch_size={b}))", ('bit', None),
+                lambda a, w=w: int(w - popcount(a) >= popcount(a)))
         add('count_leading_zeros', {'a': ('bv', w)}, "std.count_leading_zeros(self.a)", ('u', 8), lambda a, w=w: clz(a, w))
         add('count_leading_ones', {'a': ('bv', w)}, "std.count_leading_ones(self.a)", ('u', 8), lambda a, w=w: clz(~a & M(w), w))
         add('count_trailing_zeros', {'a': ('bv', w)}, "std.count_trailing_zeros(self.a)", ('u', 8), lambda a, w=w: ctz(a, w))
@@ -143,6 +152,16 @@ def cases_for(tier):
             lambda k=k, L=L, **v: L(v)[[x >> 1 for x in L(v)].index(max(x >> 1 for x in L(v)))])
         add('minimum', ins, f"std.minimum({lst}, key=key_hi{ew})", ('u', ew),
             lambda k=k, L=L, **v: L(v)[[x >> 1 for x in L(v)].index(min(x >> 1 for x in L(v)))])
+        # a key that is not idempotent and keeps the element type (applying it twice is the identity): every keyed helper
+        KI = (lambda ew_: (lambda xs: [~x & M(ew_) for x in xs]))(ew)
+        add('min_index', ins, f"std.min_index({lst}, key=key_inv)", ('u', 8), lambda k=k, L=L, KI=KI, **v: KI(L(v)).index(min(KI(L(v)))))
+        add('max_index', ins, f"std.max_index({lst}, key=key_inv)", ('u', 8), lambda k=k, L=L, KI=KI, **v: KI(L(v)).index(max(KI(L(v)))))
+        add('min_element', ins, f"std.min_element({lst}, key=key_inv)[0]", ('u', 8), lambda k=k, L=L, KI=KI, **v: KI(L(v)).index(min(KI(L(v)))))
+        add('max_element', ins, f"std.max_element({lst}, key=key_inv)[0]", ('u', 8), lambda k=k, L=L, KI=KI, **v: KI(L(v)).index(max(KI(L(v)))))
+        add('maximum', ins, f"std.maximum({lst}, key=key_inv)", ('u', ew), lambda k=k, L=L, KI=KI, **v: L(v)[KI(L(v)).index(max(KI(L(v))))])
+        add('minimum', ins, f"std.minimum({lst}, key=key_inv)", ('u', ew), lambda k=k, L=L, KI=KI, **v: L(v)[KI(L(v)).index(min(KI(L(v))))])
+        add('max_index', ins, f"std.max_index({lst}, key=key_hi{ew})", ('u', 8),
+            lambda k=k, L=L, **v: [x >> 1 for x in L(v)].index(max(x >> 1 for x in L(v))))
         add('count', ins, f"std.count({lst}, 1)", ('u', 8), lambda k=k, L=L, **v: L(v).count(1))
         add('count', ins, f"std.count({lst}, check=lambda q: q[0])", ('u', 8), lambda k=k, L=L, **v: sum(x & 1 for x in L(v)))
         add('count_elements_while', ins, f"std.count_elements_while({lst}, 1)", ('u', 8),
@@ -229,7 +248,7 @@ def run_helper(case):
     if spec['pre']:
         vals = [v for v in vals if spec['pre'](**v)]
     consts = rnd.sample(vals, min(6, len(vals)))
-    KEYS = "\ndef key_hi2(q):\n    return q[1:1].unsigned\n\ndef key_hi3(q):\n    return q[2:1].unsigned\n\n"
+    KEYS = "\ndef key_hi2(q):\n    return q[1:1].unsigned\n\ndef key_hi3(q):\n    return q[2:1].unsigned\n\ndef key_inv(q):\n    return ~q\n\n"
     L = [pg.HEADER + KEYS, f"class {cname}(Entity):"]
     for n, t in ins.items():
         L.append(f"    {n} = Port.input({tsrc(t)})")
